@@ -18,7 +18,7 @@ TREE = os.environ.get("MATRIX_WT", "/repo")
 if TREE != "/repo":
     os.environ["VERIF_ROPT_SRC"] = TREE + "/src"
 # seeded changes whose clause is decided by the check of a neighbouring property (tried when the own check stays quiet)
-ALSO = {"C14-D": ["C15"], "C07-D": ["C02"], "C01-E": ["C05"], "C07-F": ["C03"]}
+ALSO = {"C14-D": ["C15"], "C07-D": ["C02"], "C01-E": ["C05"], "C07-F": ["C03"], "C02-H": ["C06"], "C03-G": ["C14"]}
 
 
 def sh(*cmd: str, timeout: int = 1800) -> subprocess.CompletedProcess:
